@@ -635,8 +635,11 @@ class _OAuthCallbackResource:
             )
             return
 
-        # CSRF: validate state matches
-        if not hmac.compare_digest(state, expected_state):
+        # CSRF: validate state matches.  Compare bytes: compare_digest() raises
+        # TypeError for a str with non-ASCII characters, and state is caller input.
+        if not hmac.compare_digest(
+            state.encode("utf-8", "surrogatepass"), expected_state.encode("utf-8", "surrogatepass")
+        ):
             logger.warning("OAuth state mismatch")
             resp.status = "400 Bad Request"
             resp.content_type = "text/html; charset=utf-8"
